@@ -95,6 +95,20 @@ def digits(index, K, depth):
     return out
 
 
+def cast_reward(r, rtype):
+    """the same number as another numeric type a user may pass (numpy scalars, ints): "every finite reward" """
+    import numpy as np
+    if rtype == "f32":
+        return np.float32(r)
+    if rtype == "f64":
+        return np.float64(r)
+    if rtype == "i64" and float(r) == int(r):
+        return np.int64(int(r))
+    if rtype == "int" and float(r) == int(r):
+        return int(r)
+    return r
+
+
 def is_point(pt, d):
     if not isinstance(pt, (list, tuple)) or len(pt) != d:
         return False
@@ -126,6 +140,7 @@ class TreeRec:
         self.layers = []  # list of tuples
         self.pdepth = None
         self.mk_calls = 0
+        self.mk_in_call = 0
         self.in_mk = 0
         self._orig_mk = partition.make_children
         partition.make_children = self._mk_wrapper
@@ -244,7 +259,12 @@ class TreeRec:
         }
 
     # -- make_children wrapper --------------------------------------------------
+    MAX_MK_PER_CALL = 2500
+
     def _mk_wrapper(self, parent, newlayer=False):
+        self.mk_in_call += 1
+        if self.mk_in_call > self.MAX_MK_PER_CALL:
+            raise Hang()          # runaway expansion inside one public call: reported as a hang, before it eats the memory
         self.in_mk += 1
         exc = None
         try:
@@ -418,6 +438,8 @@ class SessionRec:
             self.events[-1]["sc"] = self.scalars(algo)
 
     def _call(self, kind, fn, ev):
+        if self.tree is not None:
+            self.tree.mk_in_call = 0
         old = signal.signal(signal.SIGALRM, _alarm)
         signal.alarm(self.timeout)
         res = None
